@@ -35,6 +35,8 @@ def run(ctx):
     hpackrules.entry_size(r, F)
     r = ctx.rule('C10.R10', 'PASS', 'resumability: only fully decoded fields are consumed, every representation arm consumes (a split block inserts each literal once) (= C11.R5)')
     hpackrules.resumability(r, F)
+    r = ctx.rule('C10.R12', 'GUARD', 'every field of a block is decoded even when the block is refused (= C11.R9)')
+    hpackrules.decode_runs_to_end(r, F)
     r = ctx.rule('C10.R4', 'WHO', 'a header block is HPACK-encoded once')
     hpackrules.encode_once(r, F)
     r = ctx.rule('C10.R5', 'TABLE', 'Huffman ENCODE_TABLE = RFC 7541 Appendix B (257 rows)')
